@@ -483,7 +483,7 @@ class RaggedView2:
         else:
             stop = np.minimum(self.lengths, stop)
         return self.__class__(self.starts+self.col_step*start,
-                              np.maximum(0, (stop-start+(col_slice.step-1))//col_slice.step),
+                              np.maximum(0, (stop-start-1)//col_slice.step+1),
                               self.col_step*col_slice.step)
 
     def col_slice(self, col_slice):
